@@ -322,19 +322,38 @@ func runWatcher(ctx context.Context, env *watchEnv, rec *WatchRec, extraKind []s
 			// keep listening briefly: nothing may follow a terminal Errored
 			simrt.Sleep(time.Second)
 			extra := false
+			var extraEvs []state.Event
 			if agg != nil {
 				c := simrt.Recv(agg)
 				if simrt.Select("watcher.after-error", true, c) == 0 {
 					extra = true
+					extraEvs = c.V
 				}
 			} else {
 				c := simrt.Recv(single)
 				if simrt.Select("watcher.after-error", true, c) == 0 {
 					extra = true
+					extraEvs = []state.Event{c.V}
 				}
 			}
+			onlyErrored := extra
+			for _, e := range extraEvs {
+				if e.Type != state.Errored {
+					onlyErrored = false
+				}
+			}
+			if onlyErrored {
+				// a second Errored (the gRPC client reports the end of the stream after it has relayed the server's Errored
+				// event) carries no data: the stream stays terminated
+				env.out.probe("errored-repeated")
+				extra = false
+			}
 			if extra {
-				env.out.violate(env.prop+"/errored-not-terminal", "event-after-errored", "watcher %s received an event after the terminal Errored event", rec.Name)
+				var descr []string
+				for _, e := range extraEvs {
+					descr = append(descr, recOf(e, 0).String())
+				}
+				env.out.violate(env.prop+"/errored-not-terminal", "event-after-errored", "watcher %s received an event after the terminal Errored event: %v\nevents before: %s", rec.Name, descr, renderEvents(rec.Events))
 			}
 			rec.Done = true
 			return
